@@ -23,11 +23,10 @@ import elementpath.aliases as ta
 from elementpath.protocols import XsdAttributeProtocol
 from elementpath.exceptions import ElementPathError
 from elementpath.namespaces import XSD_NAMESPACE, XSD_NOTATION, XSD_ANY_ATOMIC_TYPE, XSD_UNTYPED
-from elementpath.helpers import numeric_equal, numeric_not_equal, \
-    node_position, get_double
+from elementpath.helpers import node_position, get_double
 from elementpath.namespaces import get_namespace, get_expanded_name
 from elementpath.datatypes import UntypedAtomic, QName, AnyURI, \
-    Duration, Integer, DoubleProxy10, DateTime
+    Duration, Integer, DateTime
 from elementpath.xpath_nodes import ElementNode, DocumentNode, XPathNode, AttributeNode, \
     NamespaceNode
 from elementpath.sequences import xlist
@@ -560,14 +559,6 @@ def evaluate__value_comparison_operators(self: XPathToken, context: ta.ContextTy
         return []
     elif any(isinstance(x, XPathFunction) for x in operands):
         raise self.error('FOTY0013', "cannot compare a function item")
-    elif all(isinstance(x, DoubleProxy10) for x in operands):
-        # Special case of two <class 'float'> values: use custom operators
-        if self.symbol == 'eq':
-            return numeric_equal(*cast(list[float], operands))
-        elif self.symbol == 'ne':
-            return numeric_not_equal(*cast(list[float], operands))
-        elif numeric_equal(*cast(list[float], operands)):
-            return self.symbol in ('le', 'ge')
 
     cls0, cls1 = type(operands[0]), type(operands[1])
     if cls0 is cls1 and cls0 is not Duration:
